@@ -16,12 +16,14 @@ import parsecase
 
 logging.disable(logging.WARNING)
 
-PROOF_MODULES = ['C13', 'C13Parse']
+PROOF_MODULES = ['C13', 'C13Parse', 'C13Full']
 THEOREMS = ['Pylx.C13.C13_table', 'Pylx.C13.C13_table_ascii', 'Pylx.C13.C13_active_neutralised', 'Pylx.C13.C13_inert',
             'Pylx.C13.C13_inert_fail', 'Pylx.C13.C13_total', 'Pylx.C13.C13_ascii', 'Pylx.C13.C13_fail_iff',
             'Pylx.C13.C13_fail_iff_encode', 'Pylx.C13.C13_keep_not_ascii',
             'Pylx.C13.C13_shapes', 'Pylx.C13.C13_parses_partial', 'Pylx.C13.C13_xml_accent_without_argument',
-            'Pylx.C13.C13_parses_xml_false', 'Pylx.C13.C13_parses_none_false']
+            'Pylx.C13.C13_parses_xml_false', 'Pylx.C13.C13_parses_none_false',
+            'Pylx.C13.C13_parses_all', 'Pylx.C13.C13_parses_full_proved', 'Pylx.C13.C13_parses_xml_full_proved',
+            'Pylx.C13.C13_output_doc', 'Pylx.C13.Full.doc_parses', 'Pylx.C13.Full.reach_all', 'Pylx.C13.Full.cwfI_app']
 RULE = ('ENCP: UnicodeToLatexEncoder(conversion_rules=[table]) x strict parse of its output with the default context, on '
         '(every ordering of the LaTeX-active ASCII characters \\ { } $ % & # _ ^ ~ with a letter, space and newline up to the length '
         'bound; every character that has a rule in either built-in table in the contexts cX, Xc, acb; control, combining, astral, '
@@ -375,12 +377,20 @@ LEVEL_TEXT = ('Theorems C13_table / C13_table_ascii check, in the Lean kernel, e
               'protection schemes (balanced unescaped braces, no unescaped %, paired $, no incomplete escape, no \\begin/\\end, ASCII); '
               'C13_inert proves for every string, scheme, table and policy that the encoder output is lexically inert; C13_ascii that it is '
               'ASCII under replace/ignore/unihex; C13_fail_iff that fail raises exactly when a character has no rule and is outside the '
-              'pass-through range. The link to the parser model is proved for a class of replacement shapes (C13_parses_partial; the full '
-              'statement is kept as C13_parses_full) and refuted on concrete witnesses for the unicode-xml accent entries without argument '
-              '(F19) and for scheme none. The model (generated tables + Pylx.encodeChunks + Pylx.parseTop) is tied to '
-              'UnicodeToLatexEncoder and LatexWalker by running both on generated strings and comparing chunk lists and parse trees; the '
-              'oracle evaluates the property (strict parse, node kinds, isascii, ValueError prediction) on the implementation.')
-LEVEL_NOTE = ('NFC and str.isalpha are trusted; the parse link is proved only for the shapes listed in C13_parses_partial, beyond that it '
-              'rests on the oracle; the tie is differential testing; Lean kernel + propext/Classical.choice/Quot.sound')
+              'pass-through range. The link to the parser model is proved for EVERY input string: C13_parses_full_proved (table defaults) and '
+              'C13_parses_xml_full_proved (table unicode-xml, strings without the 13 code points of finding F19), from C13_parses_all: for each '
+              'of the four brace protection schemes and every named policy, whenever the encoder returns a text the strict parser model with the '
+              'default context returns a node list without comment and environment nodes. Proof: every replacement text of both generated tables '
+              '(kernel evaluation, C13FullA-J) and every other chunk the encoder emits is the source of a document of a small grammar '
+              '(characters, brace groups, macro calls with arguments per the default context signatures, inline math) that is well formed '
+              'whatever follows (cwfI); concatenations of such documents are well formed (cwfI_app); the nodes collector parses every well-formed '
+              'document (reach_all: prefix lemma by induction on the document, following the tokenizer through whitespace runs, paragraph '
+              'breaks and specials such as -- and two single quotes, built on the parser lemmas of C02). Scheme none is refuted on a concrete witness '
+              '(C13_parses_none_false), the F19 entries on C13_parses_xml_false. The model (generated tables + Pylx.encodeChunks + '
+              'Pylx.parseTop) is tied to UnicodeToLatexEncoder and LatexWalker by running both on generated strings and comparing chunk lists '
+              'and parse trees; the oracle evaluates the property (strict parse, node kinds, isascii, ValueError prediction) on the implementation.')
+LEVEL_NOTE = ('NFC and str.isalpha are trusted; the parse link (no comment / environment node) is proved for all strings and both tables '
+              '(F19 code points excluded for unicode-xml); the finer claim about math nodes is proved per character (C13_parses_partial) and '
+              'otherwise rests on the oracle; the tie is differential testing; Lean kernel + propext/Classical.choice/Quot.sound')
 TECHNIQUE = ('Lean 4 proof (kernel-checked classifier over generated tables, structural induction over the string through C04_concat\'s '
              'per-character decomposition) + model-vs-implementation correspondence + oracle on the implementation')
